@@ -321,8 +321,7 @@ class World:
             conds += [x.available == y.available, x.hold == y.hold, x.borrowed == y.borrowed]
         conds.append(a["open_orders"] == b["open_orders"])
         conds.append(a["open_loans"] == b["open_loans"])
-        conds.append(sorted(a["orders"]) == sorted(b["orders"]))
-        conds.append(sorted(a["loans"]) == sorted(b["loans"]))
+        # (closed records may appear: a rolled-back loan of a rejected auto-borrow request is listed as closed)
         for i in a["orders"]:
             if i in b["orders"]:
                 conds.append(self.eq_info(a["orders"][i], b["orders"][i]))
